@@ -8,8 +8,9 @@ Open Scope bool_scope.
 (* common.writeProbe *)
 Definition go_parallel_shouldUpdate (previous_isnil : bool) (previous_IsDest : bool) (probe_IsDest : bool) :=
   let shouldUpdate := previous_isnil in
-  let shouldUpdate := if (((negb previous_isnil) && (negb previous_IsDest)) && probe_IsDest) then true else shouldUpdate in
-  shouldUpdate.
+  if (((negb previous_isnil) && (negb previous_IsDest)) && probe_IsDest) then let shouldUpdate := true in
+  shouldUpdate
+  else shouldUpdate.
 
 (* common.TracerouteSerial *)
 Definition go_serial_shouldUpdate (previous_isnil : bool) (previous_IsDest : bool) (probe_IsDest : bool) :=
